@@ -51,7 +51,7 @@ package retriever
 //@ pure func insideName(p string) bool { isCleanPath(p) && !pathIsAbs(p) && p != "." && p != ".." && !strHasPrefix(p, "../") }
 
 //@ func unpackTarFileTracked(reader io.Reader, outputDir string, relativePath string, expectedSize int64, trackIntegrity bool) (unpackedFileIntegrity, error)
-//@   trusted
+//@   opaque
 //@   requires inside: insideName(relativePath)
 //@   requires regular: typeof(reader) == *tar.Reader && tarEntryRegular[reader.(*tar.Reader)]
 //@   requires size: expectedSize >= 0
@@ -61,12 +61,12 @@ package retriever
 //@   ensures result.1 != nil ==> written[outputDir] == old(written[outputDir])
 
 //@ func prepareOutputDirectory(outputDir string, force bool) error
-//@   trusted
+//@   opaque
 //@   modifies written[outputDir]
 //@   ensures result == nil ==> written[outputDir] == {}
 
 //@ func (s ProgressFunc) emit(event ProgressEvent)
-//@   trusted
+//@   opaque
 //@   nomod
 
 //@ func unpackTarWithOptions(reader io.Reader, outputDir string, force bool, options ArchiveOptions, trackIntegrity bool) (map[string]unpackedFileIntegrity, error)
@@ -91,35 +91,35 @@ package retriever
 //@ ghost comp targetsEmpty bool
 
 //@ func prepareLoadInput(options LoadOptions) (LoadOptions, func(), error)
-//@   trusted
+//@   opaque
 //@   nomod
 //@ func readLoadManifest(inputDir string, driverName string) (Manifest, error)
-//@   trusted
+//@   opaque
 //@   nomod
 //@ func manifestFileCount(value Manifest) int
-//@   trusted
+//@   opaque
 //@   nomod
 //@ func manifestFragmentBytes(value Manifest) (int64, int64)
-//@   trusted
+//@   opaque
 //@   nomod
 //@ func assertManifestSchemas(ctx context.Context, db graph.Database, value Manifest) error
-//@   trusted
+//@   opaque
 //@   nomod
 //@ func verifyLoadFragments(inputDir string, nextManifest Manifest) error
-//@   trusted
+//@   opaque
 //@   modifies fragmentsVerified[inputDir]
 //@   ensures result == nil ==> fragmentsVerified[inputDir]
 //@ func requireEmptyLoadTargets(ctx context.Context, db graph.Database, graphEntries []GraphManifest) error
-//@   trusted
+//@   opaque
 //@   modifies targetsEmpty[db]
 //@   ensures result == nil ==> targetsEmpty[db]
 //@ func loadManifestGraph(ctx context.Context, db graph.Database, options LoadOptions, codec CompressionCodec, graphIndex int, graphCount int, graphEntry GraphManifest) (int64, int64, error)
-//@   trusted
+//@   opaque
 //@   requires verifiedFirst: fragmentsVerified[options.InputDir]
 //@   requires emptyFirst: targetsEmpty[db]
 //@   nomod
 //@ func verifyLoadedMetrics(ctx context.Context, db graph.Database, value Manifest, batchSize int, progress ProgressFunc, progressInterval int64) error
-//@   trusted
+//@   opaque
 //@   nomod
 
 //@ func Load(ctx context.Context, db graph.Database, driverName string, options LoadOptions) (LoadResult, error)
@@ -127,29 +127,32 @@ package retriever
 //@   loop 0
 //@     invariant cleared: fragmentsVerified[options.InputDir] && targetsEmpty[db]
 
+// the names the publishers join to the output directory are plain file names (validated by the bounded path harness)
+//@ axiom plainNames: plainName(dumpCheckpointFileName) && plainName(dumpCheckpointFileName + ".tmp") && plainName(manifestFileName) && plainName(manifestFileName + ".tmp")
+
 // C19 kernel: the publishers follow the write-temp-then-rename discipline (/verif/specs/fsdiscipline.gocl): the
 // checkpoint and the manifest are written under their ".tmp" name and reach their final name only through os.Rename
 // of the completely written temporary file; when the rename fails the temporary file is removed and the final name is
 // left as it was.
 
 //@ func writeDumpCheckpoint(outputDir string, value dumpCheckpoint) error
-//@   modifies fileComplete[joinPath(outputDir, dumpCheckpointFileName + ".tmp")], fileComplete[joinPath(outputDir, dumpCheckpointFileName)]
+//@   modifies fileComplete[joinPath(outputDir, dumpCheckpointFileName + ".tmp")], nonAtomicWrite[joinPath(outputDir, dumpCheckpointFileName + ".tmp")], fileComplete[joinPath(outputDir, dumpCheckpointFileName)]
 //@   nosafety
 //@   ensures published: result == nil ==> fileComplete[joinPath(outputDir, dumpCheckpointFileName)]
 //@   ensures noTempLeftAfterRenameError: !fileComplete[joinPath(outputDir, dumpCheckpointFileName + ".tmp")] || result != nil
 
 //@ func writeManifest(outputDir string, value Manifest) error
-//@   modifies fileComplete[joinPath(outputDir, manifestFileName + ".tmp")], fileComplete[joinPath(outputDir, manifestFileName)]
+//@   modifies fileComplete[joinPath(outputDir, manifestFileName + ".tmp")], nonAtomicWrite[joinPath(outputDir, manifestFileName + ".tmp")], fileComplete[joinPath(outputDir, manifestFileName)]
 //@   nosafety
 //@   ensures published: result == nil ==> fileComplete[joinPath(outputDir, manifestFileName)]
 //@   ensures untouchedOnError: result != nil ==> fileComplete[joinPath(outputDir, manifestFileName)] == old(fileComplete[joinPath(outputDir, manifestFileName)])
 //@ func (s Manifest) validate() error
-//@   trusted
+//@   opaque
 //@   nomod
 // the crash-point hook is a no-op in the real build (verif_hook_off.go); the verification harness only uses it to stop
 // the process
 //@ func verifCrashPoint(point string)
-//@   trusted
+//@   opaque
 //@   nomod
 
 // Fragment files: the writer object ties its file to the temporary name of its path (the three fields are stored
@@ -162,14 +165,14 @@ package retriever
 //@ }
 
 //@ func newCompressedJSONLinesWriter(path string, codec CompressionCodec, zstdLevel int) (*compressedJSONLinesWriter, error)
-//@   modifies fileComplete[path + ".tmp"]
+//@   modifies fileComplete[path + ".tmp"], nonAtomicWrite[path + ".tmp"]
 //@   nosafety
 //@   ensures fresh: result.1 == nil ==> result.0 != nil && fresh(result.0) && result.0.path == path && !result.0.closed
 //@   ensures parts: result.1 == nil ==> result.0.file != nil && result.0.compressor != nil && result.0.hasher != nil && result.0.compressedCounter != nil && result.0.uncompressedCounter != nil
 //@   ensures names: result.1 == nil ==> result.0.tempPath == path + ".tmp" && result.0.file.name == result.0.tempPath
 //@   ensures notPublished: result.1 == nil ==> !fileComplete[path + ".tmp"]
 //@ func newCompressionWriter(writer io.Writer, codec CompressionCodec, zstdLevel int) (io.WriteCloser, error)
-//@   trusted
+//@   opaque
 //@   nomod
 //@   ensures result.1 == nil ==> result.0 != nil
 
